@@ -10,7 +10,7 @@ LEVEL = 'proof'
 CLAIM = ("UBSan-trap-instrumented clang IR of the scalar/vector integer, bitfield, rounding, conversion, packing, half, power-of-two/multiple and indexing functions (the sites named in the property: abs/sign "
          "bit tricks, roundEven/iround/uround casts, mask/rotate/fill shifts, pack narrowing conversions, type_half, swizzle/operator[] indexing) is executed symbolically over all argument values; the solver "
          "shows every sanitizer trap and every executor-detected UB unreachable under the documented precondition; counterexamples are replayed under a -fno-sanitize-recover build.")
-BOUNDS = 'all argument values of the listed function instances within the documented precondition (evidence: functions_encoded, per-obligation bounds); loops unwound with unwinding assertions; pure build at -O1 (thorough: also the SSE2/AVX2 intrinsic builds of the vector slice)'
+BOUNDS = 'all argument values of the listed function instances within the documented precondition (evidence: functions_encoded, per-obligation bounds); loops unwound with unwinding assertions; pure build at -O1, plus the aligned 4-component slice (c20_sse2, thorough also c20_avx2) in the GLM_FORCE_INTRINSICS build'
 OUTSIDE = ('UB no sanitizer reports (strict-aliasing of the reinterpret_cast bit casts and lowp inversesqrt - compared across optimisation levels by C15 instead); misaligned access (wrappers pass naturally aligned arrays); '
            'functions not in the table; ASan-class heap errors (the checked functions do not allocate)')
 ASSUMPTIONS = ['documented preconditions as listed per obligation (GLSL: bitfield offset/bits in range, non-zero divisors; gtc docs: positive Multiple; abs(INT_MIN) has no representable result and is outside)',
@@ -107,7 +107,28 @@ def _roundeven_region(res, i):
         out.append(z3.Or(z3.fpIsNaN(xf), z3.fpIsInf(xf), z3.fpGEQ(z3.fpAbs(xf), FPV(2.0 ** 31, W))))
     return z3.Or(*out)
 REGIONS = {'roundeven_out_of_int': _roundeven_region}
-def units(tier): return [(U, '-O1', True)]
+# ---- SIMD slice: aligned 4-component vectors in the GLM_FORCE_INTRINSICS build (the *_simd.inl specialisations and glm/simd/*.h kernels)
+def _simd_unit(isa, flag):
+    u = Unit('c20_' + isa, includes=INC, defines=['GLM_FORCE_INTRINSICS'], cflags=[flag]); TS = {}
+    def addS(name, ins, outs, body, pre=None, bounds='all argument values', known=(), unwind=16):
+        u.add(name, ins, outs, body); TS[name] = (pre, bounds, list(known), unwind)
+    AI = 'ldv<4,int32_t,glm::aligned_highp>'; AU = 'ldv<4,uint32_t,glm::aligned_highp>'; AF = 'ldv<4,float,glm::aligned_highp>'
+    addS('a_iabs', [('int32_t', 4)], [('int32_t', 4)] * 2, 'stv(o, glm::abs(%s(a))); stv(o2, glm::sign(%s(a)));' % (AI, AI), lambda i: [x != smin(32) for x in i[0]], 'x != INT_MIN')
+    addS('a_iminmax', [('int32_t', 4)] * 3, [('int32_t', 4)] * 3, 'stv(o, glm::min(%s(a), %s(b))); stv(o2, glm::max(%s(a), %s(b))); stv(o3, glm::clamp(%s(a), %s(b), %s(c)));' % (AI, AI, AI, AI, AI, AI, AI))
+    addS('a_uminmax', [('uint32_t', 4)] * 3, [('uint32_t', 4)] * 3, 'stv(o, glm::min(%s(a), %s(b))); stv(o2, glm::max(%s(a), %s(b))); stv(o3, glm::clamp(%s(a), %s(b), %s(c)));' % (AU, AU, AU, AU, AU, AU, AU))
+    addS('a_ibitops', [('int32_t', 4)] * 2, [('int32_t', 4)] * 4, 'stv(o, %s(a) & %s(b)); stv(o2, %s(a) | %s(b)); stv(o3, %s(a) ^ %s(b)); stv(o4, ~%s(a));' % (AI, AI, AI, AI, AI, AI, AI))
+    addS('a_ushift', [('uint32_t', 4), ('uint32_t', 1)], [('uint32_t', 4)] * 2, 'stv(o, %s(a) << b[0]); stv(o2, %s(a) >> b[0]);' % (AU, AU), lambda i: [z3.ULT(i[1][0], 32)], '0 <= shift < 32')
+    addS('a_iarith', [('int32_t', 4)] * 2, [('int32_t', 4)] * 3, 'stv(o, %s(a) + %s(b)); stv(o2, %s(a) - %s(b)); stv(o3, %s(a) * %s(b));' % (AI, AI, AI, AI, AI, AI),
+         lambda i: [h for x, y in zip(i[0], i[1]) for h in (sx(x, 66) + sx(y, 66) <= 2 ** 31 - 1, sx(x, 66) + sx(y, 66) >= -2 ** 31, sx(x, 66) - sx(y, 66) <= 2 ** 31 - 1, sx(x, 66) - sx(y, 66) >= -2 ** 31, sx(x, 66) * sx(y, 66) <= 2 ** 31 - 1, sx(x, 66) * sx(y, 66) >= -2 ** 31)], 'results representable')
+    addS('a_bits', [('uint32_t', 4)], [('int', 4)] * 3 + [('uint32_t', 4)], 'stv(o, glm::bitCount(%s(a))); stv(o2, glm::findLSB(%s(a))); stv(o3, glm::findMSB(%s(a))); stv(o4, glm::bitfieldReverse(%s(a)));' % (AU, AU, AU, AU))
+    addS('a_fround', [('float', 4)], [('float', 4)] * 4, 'stv(o, glm::floor(%s(a))); stv(o2, glm::ceil(%s(a))); stv(o3, glm::round(%s(a))); stv(o4, glm::trunc(%s(a)));' % (AF, AF, AF, AF))
+    addS('a_fmisc', [('float', 4)] * 2, [('float', 4)] * 4, 'stv(o, glm::abs(%s(a))); stv(o2, glm::fract(%s(a))); stv(o3, glm::mod(%s(a), %s(b))); stv(o4, glm::sign(%s(a)));' % (AF, AF, AF, AF, AF))
+    addS('a_fconv', [('float', 4)], [('int32_t', 4)], 'stv(o, glm::vec<4,int,glm::aligned_highp>(%s(a)));' % AF, lambda i: [z3.And(z3.Not(is_nan(x)), z3.fpLT(z3.fpAbs(fpof(x)), FPV(2.0 ** 31, 32))) for x in i[0]], '|x| < 2^31, non-NaN')
+    addS('a_index', [('float', 4), ('int', 1)], [('float', 1)], 'auto v = %s(a); o[0] = v[b[0]];' % AF, lambda i: [i[1][0] >= 0, i[1][0] < 4], '0 <= i < 4')
+    return u, TS
+SIMD = {isa: _simd_unit(isa, fl) for isa, fl in (('sse2', '-msse2'), ('avx2', '-mavx2'))}
+def simd_isas(tier): return ['sse2'] if tier == 'quick' else ['sse2', 'avx2']
+def units(tier): return [(U, '-O1', True)] + [(SIMD[i][0], '-O1', True) for i in simd_isas(tier)]
 NATIVE = False
 
 def job(names):
@@ -116,7 +137,16 @@ def job(names):
             pre, btxt, known, unw = T[n]
             S.check_fn(U, n, None, pre, ubsan=True, unwind=unw, known=known, bounds=btxt + '; UBSan-trap IR', timeout=S.cap(60, 240), validate=0, solver='portfolio' if n.startswith(('mult_', 'ivecops', 'gtxint')) else 'z3')
     return run
+def job_simd(isa, names):
+    u, TS = SIMD[isa]
+    def run(S):
+        for n in names:
+            pre, btxt, known, unw = TS[n]
+            S.check_fn(u, n, None, pre, ubsan=True, unwind=unw, known=known, bounds=btxt + '; UBSan-trap IR, GLM_FORCE_INTRINSICS ' + isa, timeout=S.cap(60, 240), validate=0)
+    return run
 def jobs(tier):
+    return jobs_pure(tier) + [('simd_%s_%d' % (isa, k), job_simd(isa, sorted(SIMD[isa][1])[k::3])) for isa in simd_isas(tier) for k in range(3)]
+def jobs_pure(tier):
     names = sorted(U.fns)
     if tier == 'quick': names = [n for n in names if not re.search(r'_(i8|u16|i16)$', n)]
     k = 14; n = (len(names) + k - 1) // k
